@@ -22,9 +22,11 @@ def scenarios(ctx: Ctx, res: Result):
     fam = list(gc.conflict_family())
     if not ctx.thorough:
         fam = ctx.rng.sample(fam, 120)
-    for sc in fam:
+    for k, sc in enumerate(fam):
         res.count('conflict_family')
-        yield sc
+        # every third: behind each decider a further subscriber that FAILS on notifications carrying a finished run
+        # (cluster.Bomb): the application carries on, the conflict is decided as ever
+        yield dict(sc, bomb=list(sc['names'])) if k % 3 == 1 else sc
     # re-delivery of an unacknowledged message merged with newer changes (the `dup` variants: delivered, reported failed)
     for sc in gc.newer_first_family():
         if any(o.startswith('dup') for o in sc['ops']):
